@@ -191,3 +191,5 @@ Definition vclip (lo hi : Q) (a : list Q) : list Q :=
   map (fun x => let m := if Qltb x lo then lo else x in if Qltb hi m then hi else m) a.
 (* m[idx] for a 2-D array and an index array: the rows, in the order of idx *)
 Definition gatherR {A} (m : list (list A)) (idx : list Z) : list (list A) := map (getR m) idx.
+(* raise: the computation has no result *)
+Definition fail {A} : M A := fun _ => None.
